@@ -48,6 +48,62 @@ func checkC19(r *Run) {
 	c19PassThrough(r)
 	c19WStat(r)
 	c19Create(r)
+	c19FreshStat(r)
+}
+
+// Every FileRef handed out describes the host as it is now: its Info comes from dirFromInfo(os.Stat(host path of
+// that very Path)) made, successfully, in the function that builds the FileRef; nothing else writes FileRef.Info.
+// (FileRef.Stat returns the cached Info, so a FileRef built from another one's Info reports stale metadata and
+// even "walks" to files that no longer exist.)
+func c19FreshStat(r *Run) {
+	p := r.P
+	nLit := 0
+	for _, fn := range p.FuncsOfPkg("ufs") {
+		fn := fn
+		eachInstr(fn, func(in ssa.Instruction) {
+			switch x := in.(type) {
+			case *ssa.Alloc:
+				pt, ok := x.Type().Underlying().(*types.Pointer)
+				if !ok || !strings.HasSuffix(shortType(pt.Elem()), "ufs.FileRef") {
+					return
+				}
+				flds, _, ok := allocFields(x)
+				if !ok || len(flds) == 0 {
+					return // a plain local copy, not a construction
+				}
+				if _, isLit := flds["Path"]; !isLit {
+					return
+				}
+				nLit++
+				key := fnName(fn) + ": FileRef literal takes Info from a successful os.Stat of its own path"
+				info, _ := flds["Info"].(*ssa.Call)
+				if info == nil || calleeName(&info.Call) != "ufs.dirFromInfo" {
+					r.Bad("fresh-stat", key, x.Pos(), "the FileRef's Info is not computed by dirFromInfo(os.Stat(...)) here (copied or left empty): stats through this fid do not reflect the host")
+					return
+				}
+				var st *ssa.Call
+				if ex, ok := info.Call.Args[0].(*ssa.Extract); ok && ex.Index == 0 {
+					st, _ = ex.Tuple.(*ssa.Call)
+				}
+				okStat := st != nil && (calleeName(&st.Call) == "os.Stat" || calleeName(&st.Call) == "os.Lstat") && callSucceededAt(st, info)
+				okPath := okStat && derivesFrom(st.Call.Args[0], flds["Path"], 5)
+				r.Check(okStat && okPath, "fresh-stat", key, x.Pos(), "the Info does not come from a successful stat of the host path of this FileRef's own Path")
+			case *ssa.Store:
+				f, ok := x.Addr.(*ssa.FieldAddr)
+				if !ok || !strings.HasSuffix(shortType(f.X.Type()), "ufs.FileRef") || fieldName(f.X.Type(), f.Field) != "Info" {
+					return
+				}
+				if a, isA := f.X.(*ssa.Alloc); isA {
+					if _, _, ok := allocFields(a); ok {
+						return // part of a literal, handled above
+					}
+				}
+				c, _ := x.Val.(*ssa.Call)
+				r.Check(c != nil && calleeName(&c.Call) == "ufs.dirFromInfo", "fresh-stat", fnName(fn)+": FileRef.Info is only ever assigned dirFromInfo(...)", x.Pos(), "FileRef.Info is overwritten with something that is not a fresh host stat")
+			}
+		})
+	}
+	r.Floor("fresh-stat", nLit, 1, "FileRef constructions in ufs")
 }
 
 func c19Oflags(r *Run) {
